@@ -771,6 +771,8 @@ type c20MiscStats struct {
 	mu                            sync.Mutex
 	criExecuted, criDelivered     int
 	xlExecuted, xlExempt, xlDrift int
+	rlExecuted, rlDrift           int
+	skExecuted, skDrift           int
 	pipelines                     int
 	viols                         []*c20SizeViol
 }
@@ -950,6 +952,153 @@ func c20RunXlGroup(id int, cases []*c20XlCase, st *c20MiscStats) {
 	}
 }
 
+// ---------------------------------------------------------------- rule lists through In
+
+type c20RlCase struct {
+	G     int     `json:"g"`
+	Rules [][]int `json:"rules"` // per rule: its condition matches the record, its threshold
+	Gov   int     `json:"gov"`
+	Mgov  int     `json:"mgov"`
+}
+
+func c20RunRlGroup(id int, cases []*c20RlCase, st *c20MiscStats) {
+	c0 := cases[0]
+	var rules antispam.Rules
+	for i, r := range c0.Rules {
+		chk, err := doif.NewFromMap(map[string]any{"op": "contains", "field": "event", "values": []any{fmt.Sprintf("<%d>", i+1)}})
+		if err != nil {
+			panic(err)
+		}
+		rules = append(rules, antispam.Rule{Name: fmt.Sprintf("c20r%d", i+1), Threshold: r[1], DoIfChecker: chk})
+	}
+	s := &Settings{Decoder: "raw", Antispam: AntispamSettings{Threshold: c0.G, MaintenanceInterval: time.Hour, Rules: rules}}
+	p, _, out := c20NewPipeline(fmt.Sprintf("c20rl%d", id), s)
+	p.Start()
+	defer p.Stop()
+	st.mu.Lock()
+	st.pipelines++
+	st.mu.Unlock()
+	accepted := int64(0)
+	for ci, c := range cases {
+		func() {
+			content := "ev"
+			for i, r := range c.Rules {
+				if r[0] == 1 {
+					content += fmt.Sprintf(" <%d>", i+1)
+				}
+			}
+			mk := func(kind, want, got string) *c20SizeViol {
+				b, _ := json.Marshal(c)
+				return &c20SizeViol{Kind: kind, Decoder: "raw", Why: "rule list " + string(b), Input: content, Want: want, Got: got,
+					Harness: "pipeline-rlist", RawCase: c}
+			}
+			defer func() {
+				if r := recover(); r != nil {
+					v := mk("panic", "", "")
+					v.Panic = fmt.Sprint(r)
+					st.add(v)
+				}
+			}()
+			for k := 1; k <= 4; k++ {
+				seq := p.In(SourceID(100+ci), "c20src", Offsets{current: int64(k)}, []byte(content+"\n"), false, nil)
+				refused := seq == EventSeqIDError
+				if !refused {
+					accepted++
+				}
+				st.mu.Lock()
+				st.rlExecuted++
+				if refused != (c.Mgov == 0 || (c.Mgov >= 1 && k >= c.Mgov)) {
+					st.rlDrift++
+				}
+				st.mu.Unlock()
+				if refused && (c.Gov == -1 || (c.Gov >= 1 && k < c.Gov)) {
+					st.add(mk("spam_from_unbannable_source", fmt.Sprintf("record %d admitted: the first matching rule (else the global threshold) gives %d", k, c.Gov), "In returned 0"))
+				}
+			}
+		}()
+	}
+	deadline := time.Now().Add(30 * time.Second)
+	for out.count.Load() < accepted && time.Now().Before(deadline) {
+		time.Sleep(time.Millisecond)
+	}
+	if out.count.Load() != accepted {
+		st.add(&c20SizeViol{Kind: "not_delivered", Harness: "pipeline-rlist", Got: fmt.Sprintf("accepted %d, delivered %d", accepted, out.count.Load())})
+	}
+}
+
+// ---------------------------------------------------------------- the antispam source key
+//
+// Two inputs interleaved on a running pipeline (threshold 2), source_name_meta_field unset / set, records with or
+// without that meta key.  A record that is among the first threshold-1 charged to its counter (the meta value if
+// the field is configured and present, else the input's source id) must be admitted -- in particular the first
+// record of input B after input A reached the threshold.
+
+const c20MetaKey = "c20_source"
+
+type c20SkCase struct {
+	Field bool    `json:"field"`
+	Thr   int     `json:"thr"`
+	Recs  [][]int `json:"recs"` // input (1, 2), meta (0 absent, 1, 2 = two values), count on its counter, must be admitted, count in the model
+}
+
+func c20RunSkGroup(id int, cases []*c20SkCase, st *c20MiscStats) {
+	c0 := cases[0]
+	s := &Settings{Decoder: "raw", Antispam: AntispamSettings{Threshold: c0.Thr, MaintenanceInterval: time.Hour}}
+	if c0.Field {
+		s.SourceNameMetaField = c20MetaKey
+	}
+	p, _, out := c20NewPipeline(fmt.Sprintf("c20sk%d", id), s)
+	p.Start()
+	defer p.Stop()
+	st.mu.Lock()
+	st.pipelines++
+	st.mu.Unlock()
+	accepted := int64(0)
+	for ci, c := range cases {
+		func() {
+			mk := func(kind, want, got string, i int) *c20SizeViol {
+				b, _ := json.Marshal(c)
+				return &c20SizeViol{Kind: kind, Decoder: "raw", Why: fmt.Sprintf("source key, record %d of %s", i, b), Want: want, Got: got,
+					Harness: "pipeline-skey", RawCase: c}
+			}
+			defer func() {
+				if r := recover(); r != nil {
+					v := mk("panic", "", "", -1)
+					v.Panic = fmt.Sprint(r)
+					st.add(v)
+				}
+			}()
+			for i, r := range c.Recs {
+				var meta map[string]string
+				if r[1] != 0 {
+					meta = map[string]string{c20MetaKey: fmt.Sprintf("svc-%d-%c", ci, 'w'+r[1])} // values private to the case
+				}
+				seq := p.In(SourceID(1000+ci*4+r[0]), fmt.Sprintf("input%d", r[0]), Offsets{current: int64(i + 1)}, []byte("some record\n"), false, meta)
+				refused := seq == EventSeqIDError
+				if !refused {
+					accepted++
+				}
+				st.mu.Lock()
+				st.skExecuted++
+				if refused != (r[4] >= c.Thr) {
+					st.skDrift++
+				}
+				st.mu.Unlock()
+				if refused && r[3] == 1 {
+					st.add(mk("ban_below_threshold", fmt.Sprintf("admitted: record %d on its counter, threshold %d", r[2], c.Thr), "In returned 0", i))
+				}
+			}
+		}()
+	}
+	deadline := time.Now().Add(30 * time.Second)
+	for out.count.Load() < accepted && time.Now().Before(deadline) {
+		time.Sleep(time.Millisecond)
+	}
+	if out.count.Load() != accepted {
+		st.add(&c20SizeViol{Kind: "not_delivered", Harness: "pipeline-skey", Got: fmt.Sprintf("accepted %d, delivered %d", accepted, out.count.Load())})
+	}
+}
+
 // ---------------------------------------------------------------- driver
 
 func TestVerifC20(t *testing.T) {
@@ -972,6 +1121,9 @@ func TestVerifC20(t *testing.T) {
 	criGroups := map[string][]*c20CriCase{}
 	xlGroups := map[string][]*c20XlCase{}
 	var xlOrder []string
+	rlGroups := map[string][]*c20RlCase{}
+	var rlOrder []string
+	skGroups := map[bool][]*c20SkCase{}
 	sc := bufio.NewScanner(f)
 	sc.Buffer(make([]byte, 1<<20), 1<<24)
 	for sc.Scan() {
@@ -987,6 +1139,25 @@ func TestVerifC20(t *testing.T) {
 				t.Fatalf("bad cri case: %v", err)
 			}
 			criGroups[c.Anti] = append(criGroups[c.Anti], c)
+		} else if head.Part == "rlist" {
+			c := &c20RlCase{}
+			if err := json.Unmarshal(sc.Bytes(), c); err != nil {
+				t.Fatalf("bad rule-list case: %v", err)
+			}
+			k := fmt.Sprint(c.G)
+			for _, r := range c.Rules {
+				k += fmt.Sprint("/", r[1])
+			}
+			if _, ok := rlGroups[k]; !ok {
+				rlOrder = append(rlOrder, k)
+			}
+			rlGroups[k] = append(rlGroups[k], c)
+		} else if head.Part == "skey" {
+			c := &c20SkCase{}
+			if err := json.Unmarshal(sc.Bytes(), c); err != nil {
+				t.Fatalf("bad source-key case: %v", err)
+			}
+			skGroups[c.Field] = append(skGroups[c.Field], c)
 		} else if head.Part == "xlist" {
 			c := &c20XlCase{}
 			if err := json.Unmarshal(sc.Bytes(), c); err != nil {
@@ -1067,6 +1238,29 @@ func TestVerifC20(t *testing.T) {
 			}(id, dec, anti)
 		}
 	}
+	for _, k := range rlOrder {
+		id++
+		wg.Add(1)
+		sem <- struct{}{}
+		go func(id int, cs []*c20RlCase) {
+			defer wg.Done()
+			defer func() { <-sem }()
+			c20RunRlGroup(id, cs, mst)
+		}(id, rlGroups[k])
+	}
+	for _, f := range []bool{false, true} {
+		if len(skGroups[f]) == 0 {
+			continue
+		}
+		id++
+		wg.Add(1)
+		sem <- struct{}{}
+		go func(id int, cs []*c20SkCase) {
+			defer wg.Done()
+			defer func() { <-sem }()
+			c20RunSkGroup(id, cs, mst)
+		}(id, skGroups[f])
+	}
 	for _, k := range xlOrder {
 		id++
 		wg.Add(1)
@@ -1117,7 +1311,8 @@ func TestVerifC20(t *testing.T) {
 	}
 	res := map[string]interface{}{
 		"misc": map[string]interface{}{"cri_executed": mst.criExecuted, "cri_delivered": mst.criDelivered, "xlist_executed": mst.xlExecuted,
-			"xlist_exempt": mst.xlExempt, "xlist_drift": mst.xlDrift, "pipelines": mst.pipelines, "violations": mst.viols},
+			"xlist_exempt": mst.xlExempt, "xlist_drift": mst.xlDrift, "rlist_in_calls": mst.rlExecuted, "rlist_drift": mst.rlDrift,
+			"skey_in_calls": mst.skExecuted, "skey_drift": mst.skDrift, "pipelines": mst.pipelines, "violations": mst.viols},
 		"sched": map[string]interface{}{"executed": cst.executed, "steps": cst.steps, "pipelines": cst.groups, "banned_in_first_burst": cst.sawBan,
 			"banned_then_admitted": cst.bannedThenAdmit, "interval_ms": c20SchedInterval.Milliseconds(), "violations": cv, "violation_counts": cst.counts},
 		"size": map[string]interface{}{"executed": sst.executed, "delivered": sst.delivered, "refused": sst.refused,
